@@ -179,9 +179,9 @@ theorem fstep_unlock_nil (b : State) (i : Image) (res : Result) :
 
 /-- The state a parked completion ends in: the completion, then the requests issued meanwhile -
 as if they had arrived after the broadcast. -/
-theorem parkModel_state (s : State) (h : RInv s) (i : Image) (res : Result) (k : Nat)
+theorem parkModel_state (n : Nat) (s : State) (h : RInv s) (i : Image) (res : Result) (k : Nat)
     (mid : List (Caller × Image)) (ws : List Recv) (hi : s.inFlight i = some ws) :
-    (parkModel s i res k mid).2 =
+    (parkModel n s i res k mid).2 =
       run (step s (.complete i res)) (planOps (midPlan (abs s) i k mid [] [])) := by
   have hr : 0 < s.running i := by simp [(h.present i ws hi).1]
   have hlen : (List.drop k ws).length ≤ ws.length := by simp
@@ -191,13 +191,13 @@ theorem parkModel_state (s : State) (h : RInv s) (i : Image) (res : Result) (k :
   simp [step, enabled, hr, apply, complete_eq_finish, finish_eq, hi]
 
 /-- What a parked completion shows once it is over. -/
-theorem parkModel_collapse (s : State) (h : RInv s) (i : Image) (res : Result) (k : Nat)
+theorem parkModel_collapse (n : Nat) (s : State) (h : RInv s) (i : Image) (res : Result) (k : Nat)
     (mid : List (Caller × Image)) (ws : List Recv) (hi : s.inFlight i = some ws) :
-    collapse (parkModel s i res k mid).1 =
+    collapse (parkModel n s i res k mid).1 =
       .step "U"
         { happened := true
-          started := (List.range nImg).map (parkModel s i res k mid).2.started
-          inflight := (List.range nImg).map (parkModel s i res k mid).2.running
+          started := (List.range n).map (parkModel n s i res k mid).2.started
+          inflight := (List.range n).map (parkModel n s i res k mid).2.running
           returned := ws.map fun r => (s.callerOf r, res)
           aliased := 0 } := by
   have hr : 0 < s.running i := by simp [(h.present i ws hi).1]
